@@ -477,6 +477,75 @@ func (e *Engine) VerifyStructural(name string) {
 			return
 		}
 		e.Obls = append(e.Obls, &Obligation{Name: oname, Kind: "structural", Func: oname, Goal: True, Clause: fmt.Sprintf("%s (%d functions scanned)", sc.Text, n), Where: where})
+	case "only_writers":
+		// only_writers PKGNAME.TYPE.FIELD in PKG: FUNC...
+		// The field is stored to only in the listed functions (so every other function, in particular
+		// every implementation behind an interface, leaves it as it is).
+		if len(f) < 4 || f[2] != "in" {
+			fail("only_writers PKGNAME.TYPE.FIELD in PKG: FUNC...")
+			return
+		}
+		parts := strings.Split(f[1], ".")
+		if len(parts) != 3 {
+			fail("only_writers needs PKGNAME.TYPE.FIELD")
+			return
+		}
+		pkg := resolvePkg(strings.TrimSuffix(f[3], ":"))
+		allowed := map[string]bool{}
+		for _, x := range f[4:] {
+			allowed[strings.TrimSuffix(x, ":")] = true
+		}
+		var bad []string
+		n, sites := 0, 0
+		for _, fn := range fns {
+			if pkgOf(fn) != pkg || len(fn.Blocks) == 0 {
+				continue
+			}
+			n++
+			sk := shortKey(funcKey(fn))
+			for _, b := range fn.Blocks {
+				for _, in := range b.Instrs {
+					st, ok := in.(*ssa.Store)
+					if !ok {
+						continue
+					}
+					fa, ok := st.Addr.(*ssa.FieldAddr)
+					if !ok {
+						continue
+					}
+					pt, ok := fa.X.Type().Underlying().(*types.Pointer)
+					if !ok {
+						continue
+					}
+					nt, ok := pt.Elem().(*types.Named)
+					if !ok || nt.Obj().Pkg() == nil || nt.Obj().Pkg().Name() != parts[0] || nt.Obj().Name() != parts[1] {
+						continue
+					}
+					stt, ok := nt.Underlying().(*types.Struct)
+					if !ok || stt.Field(fa.Field).Name() != parts[2] {
+						continue
+					}
+					sites++
+					if !allowed[sk] {
+						bad = append(bad, sk)
+					}
+				}
+			}
+		}
+		if n == 0 {
+			fail("package " + pkg + " has no functions loaded")
+			return
+		}
+		if sites == 0 {
+			fail("no store to " + f[1] + " found in " + pkg + " (wrong field name?)")
+			return
+		}
+		if len(bad) > 0 {
+			sort.Strings(bad)
+			fail(f[1] + " is also written in: " + strings.Join(bad, "; "))
+			return
+		}
+		e.Obls = append(e.Obls, &Obligation{Name: oname, Kind: "structural", Func: oname, Goal: True, Clause: fmt.Sprintf("%s (%d stores in %d functions)", sc.Text, sites, n), Where: where})
 	default:
 		fail("unknown structural check " + f[0])
 	}
